@@ -280,7 +280,16 @@ func progFuncs() *Program {
 	sc.ArgID, sc.ArgName = 7, "n"
 	li := fn("Lists", ListOf(Ref(r)), MapOf(T(String), Ref(r)))
 	li.ArgID, li.ArgName = 255, "m"
-	f.AddService("Svc", nil, ow, v, vt, sc, li)
+	// several methods over ONE request / response / exception type that differ only in the id and the name of the
+	// argument (resp. of the exception): the wrappers are per method
+	p2 := fn("Put", Ref(r), Ref(r))
+	p2.ArgID, p2.ArgName = 2, "request"
+	p3 := fn("Del", Ref(r), Ref(r))
+	p3.ArgID, p3.ArgName = 300, "req"
+	p4 := throws(fn("PutThrows", Ref(r), Ref(r)), 2, "err", Ref(ex))
+	p4.ArgID, p4.ArgName = 1, "r"
+	p5 := throws(fn("DelThrows", Ref(r), Ref(r)), 7, "e", Ref(ex))
+	f.AddService("Svc", nil, ow, v, vt, sc, li, p2, p3, p4, p5)
 	return &Program{Name: "functions", Main: f, Feat: "functions"}
 }
 
